@@ -157,8 +157,9 @@ def reserved_only_diff(d, p, q):
 
 
 def same(a, b):
-    if isinstance(a, float) and isinstance(b, float):
-        return a == b or (a != a and b != b)
+    # bit-exact for floats (-0.0 is not 0.0; all NaNs alike); bool and int compare as numbers
+    if isinstance(a, float) or isinstance(b, float):
+        return impl.show_val(a) == impl.show_val(b)
     return a == b
 
 
